@@ -161,6 +161,15 @@ theorem need_par (S : Stage ι α σ) (T : Stage ι β τ) (xs : List ι) (k ja 
     (ha : S.need xs k = some ja) (hb : T.need xs k = some jb) :
     (par S T).need xs k = some (max ja jb) := ALV.C02.need_par S T xs k ja jb ha hb
 
+/-- **C02.3h'** two-source lock-step stages (binary operators on two streams, `izip`, filters with
+coefficient streams, `modulo_counter` over `xzip(...)`) are stages over the *pair* source: the
+first `k` outputs touch only the first `need k` items of EACH source. -/
+theorem lockstep_two_sources (S : Stage (α × β) ο σ) (xs xs' : List α) (ys ys' : List β)
+    (k j : Nat) (hn : S.need (xs.zip ys) k = some j)
+    (hx : xs.take j = xs'.take j) (hy : ys.take j = ys'.take j) :
+    S.need (xs'.zip ys') k = some j ∧ (S.run (xs'.zip ys')).take k = (S.run (xs.zip ys)).take k :=
+  Stage.nonInterference S (xs.zip ys) (xs'.zip ys') k j hn (by rw [take_zip, take_zip, hx, hy])
+
 /-- `ParallelFilter` of `n` sample-wise filters over `thub(seq, n)`, `CascadeFilter` of `n`
 filters: `k` outputs read `k` items, for every `n`. -/
 theorem need_parallel_cascade (n : Nat) (xs : List Unit) (k : Nat) (hk : k ≤ xs.length) :
@@ -262,6 +271,8 @@ example : needResample 4 (5 / 2) 3 = 8 ∧ needResample 1 (1 / 2) 4 = 3 := by de
 example : smixStartSpec (5 / 2) = 2 ∧ smixStart (5 / 2) = 2 ∧ smixStart 3 = 3 := by decide +kernel
 example : (Seq.ofFn (fun n => n * n)).take 4 = [0, 1, 4, 9] := by decide
 example : (Seq.ofFn (fun (_ : Nat) => ())).Endless := fun _ h => by cases h
+example : (scanS (fun (m : Nat) (p : Nat × Nat) => (p.1, m + p.1 * p.2)) 0).need
+    ([1, 2, 3].zip [4, 5, 6]) 2 = some 2 := by decide
 /-- non-interference instantiated: two different continuations after the needed prefix -/
 example : (blocksS 2 1 0).need [1, 2, 3, 99] 2 = some 3 ∧
     ((blocksS 2 1 0).run [1, 2, 3, 4, 5, 6]).take 2 = ((blocksS 2 1 0).run [1, 2, 3, 99]).take 2 := by
